@@ -102,7 +102,12 @@ what TSStatelessBFS must hand to its handler. -/
 def maxTerms (g : G) (d : Dir) (wfilt : Edge → Option Nat) (maxDepth : Int) : Nat → PTerm → List PTerm :=
   treeLeaves (ptChildren (fun n => g.incident n d) wfilt maxDepth Edge.other) ptIsPath
 
-/-- number of distinct (start, end) pairs — what a simple-digraph container can count. -/
-def G.pairs (g : G) : List (Nat × Nat) := (g.edges.map (fun e => (e.start, e.stop))).eraseDups
+/-- keep the last occurrence of every pair -/
+def dedupP : List (Nat × Nat) → List (Nat × Nat)
+  | [] => []
+  | p :: ps => if p ∈ dedupP ps then dedupP ps else p :: dedupP ps
+
+/-- the distinct (start, end) pairs — what a simple-digraph container (adjacency map, CSR) can count. -/
+def G.pairs (g : G) : List (Nat × Nat) := dedupP (g.edges.map (fun e => (e.start, e.stop)))
 
 end Dawgs.C14
